@@ -52,8 +52,9 @@ def rand_literal(rng, prim):
     return str(v)
 
 
-def gen_struct(ctx, name, allow_obj=True, max_fields=6, small_bias=0.5):
-    """aligned by construction: random fields, padding inserted where needed"""
+def gen_struct(ctx, name, allow_obj=True, max_fields=6, small_bias=0.5, free=False, big_counts=False):
+    """aligned by construction: random fields, padding inserted where needed
+    (free=True: no padding is inserted, so the struct may violate the alignment rules)"""
     rng = ctx.rng
     fields, off, al, objs = [], 0, 1, 0
     nf = rng.randint(1, max_fields)
@@ -78,10 +79,10 @@ def gen_struct(ctx, name, allow_obj=True, max_fields=6, small_bias=0.5):
                 sz, a, o = ctx.structs[t]["size"], ctx.structs[t]["align"], ctx.structs[t]["objs"]
         cnt = 1
         if o == 0 and rng.random() < 0.25:
-            cnt = rng.choice([2, 3, 4, 7, 8, 15, 16, 17])
+            cnt = rng.choice([2, 3, 4, 7, 8, 15, 16, 17] + ([255, 256, 1000, 65535] if big_counts else []))
         if target_small and off + sz * cnt > 16 and fields:
             break
-        if off % a:
+        if off % a and not free:
             pad = a - off % a
             fields.append(("uint8", pad, "pad%d" % len(fields)))
             off += pad
@@ -89,7 +90,7 @@ def gen_struct(ctx, name, allow_obj=True, max_fields=6, small_bias=0.5):
         off += sz * cnt
         al = max(al, a)
         objs += o * cnt
-    if off % al:
+    if off % al and not free:
         pad = al - off % al
         fields.append(("uint8", pad, "pad%d" % len(fields)))
         off += pad
